@@ -73,6 +73,17 @@ def impl_run(case):
     nd = case["ndim"]
     q = np.array(case["query"], dtype=np.double).reshape((len(case["query"]), nd) if nd > 1 else (len(case["query"]),))
     s = np.array(case["series"], dtype=np.double).reshape((len(case["series"]), nd) if nd > 1 else (len(case["series"]),))
+    if nd == 1 and len(case["series"]) % 3 == 0:
+        # the same samples as a strided view (every other element of a buffer interleaved with other numbers)
+        buf = np.empty(2 * len(s), dtype=np.double)
+        buf[0::2] = s
+        buf[1::2] = 1e3 + np.arange(len(s))
+        s = buf[0::2]
+    if nd == 1 and len(case["query"]) % 3 == 0:
+        buf = np.empty(2 * len(q), dtype=np.double)
+        buf[0::2] = q
+        buf[1::2] = -1e3 - np.arange(len(q))
+        q = buf[0::2]
     out = {}
     kw = dict(k=case["k"], overlap=case["overlap"], minlength=case["minlength"], maxlength=case["maxlength"])
     for eng, use_c in (("py", False), ("c", True)):
